@@ -13,7 +13,7 @@ ASSUMPTIONS = ["login reply of at least 12 bytes in the cases the Spec checker j
                "with the model only"]
 RULE = ("single operations of all 12 kinds; sequences of 2..12 operations on one API object (all ordered pairs of kinds in the "
         "thorough tier) with a fresh session id per login and the clock advanced between operations; pairs of objects with "
-        "different ids and keys run concurrently, including the four-frame thermostat flow against another object's login; non-trivial = distinct operations that wrote at least one command frame")
+        "different ids and keys run concurrently, sequences on one object whose device answers each read after 0.2 s .. 25 h of virtual time, including the four-frame thermostat flow against another object's login; non-trivial = distinct operations that wrote at least one command frame")
 REQUIREMENT = ("frames of one operation = login frame of this API for this clock reading (key for type 1, device id for type 2), then "
                "1 command frame (thermostat control: 1-3) each carrying bytes 8-11 of this login's reply, this operation's "
                "timestamp and the configured device id (Spec/FrameSpec.v c03_check)")
@@ -78,6 +78,27 @@ def run_sequences(rnd, seqs):
     return asyncio.run(go())
 
 
+DELAYS = [0, 0.2, 1.9, 2.1, 4.9, 5.1, 9.9, 10.1, 29, 31, 59, 61, 125, 601, 3700, 90000]
+def run_slow_sequences(rnd, n):
+    """sequences of operations on ONE api object whose device takes from a fraction of a second to a day to answer each read
+    (virtual clock): however slow a reply, it belongs to the read that was waiting for it"""
+    async def go():
+        cases = []; texts = []
+        for _ in range(n):
+            t2 = rnd.random() < .5
+            ident = ("%06x" % rnd.randrange(1 << 24), "%02x" % rnd.randrange(256))
+            api = world.SlowApi(t2, *ident); now = rnd.randrange(1_600_000_000, 2_000_000_000)
+            for _ in range(rnd.randrange(2, 5)):
+                kind = rnd.choice([k for k in range(1, 13) if (k in world.TYPE2_KINDS) == t2])
+                c = clean_case(rnd, kind); c["id"], c["key"] = ident
+                now += rnd.choice([1, 5, 3600]); c["now"] = now
+                if kind == 4: c["replies"][1] = world.schedules_reply(rnd, now).hex()
+                api.delays[:] = [rnd.choice(DELAYS) for _ in c["replies"]]; c["delays"] = list(api.delays)
+                texts.append(await api.run(kind, c["args"], [bytes.fromhex(r) for r in c["replies"]], now)); cases.append(c)
+        return cases, texts
+    return world.run_virtual(go())
+
+
 class Interleaved(world.ScriptedApi):
     def __init__(self, rnd, traveller, *a):
         super().__init__(*a); self.rnd = rnd; self.trav = traveller
@@ -139,6 +160,8 @@ def run(tier, rnd, out):
     seqs += [[rnd.choice(kinds) for _ in range(rnd.randrange(3, 13))] for _ in range(25 if tier == "quick" else 400)]
     cases, texts = run_sequences(rnd, seqs)
     judge(out, "sequences-on-one-object", cases, texts)
+    cases, texts = run_slow_sequences(rnd, 30 if tier == "quick" else 600)
+    judge(out, "slow-replies-on-one-object", cases, texts)
     cases, texts = run_interleaved(rnd, 40 if tier == "quick" else 1000)
     judge(out, "two-objects-interleaved", cases, texts)
     cases, texts = run_interleaved(rnd, 40 if tier == "quick" else 1000, four_frames=True)
@@ -147,5 +170,13 @@ def run(tier, rnd, out):
     judge(out, "single-over-tcp", tcp, asyncio.run(oc.run_tcp(tcp)))
 
 
+def run_one_slow(c):
+    async def go():
+        api = world.SlowApi(c["kind"] in world.TYPE2_KINDS, c["id"], c["key"]); api.delays[:] = list(c["delays"])
+        return [await api.run(c["kind"], c["args"], [bytes.fromhex(r) for r in c["replies"]], c["now"])]
+    return world.run_virtual(go())
+
+
 def replay(rp, out):
-    c = rp["input"]; judge(out, rp.get("stream", "replay"), [c], world.run_cases_fresh([c]))
+    c = rp["input"]
+    judge(out, rp.get("stream", "replay"), [c], run_one_slow(c) if c.get("delays") else world.run_cases_fresh([c]))
